@@ -67,6 +67,7 @@ type TGen struct {
 	// LoopVarsInNested allows {{this}}, {{@index}}, {{@first}}, {{@last}} in the body of a nested loop
 	LoopVarsInNested bool
 	MissingNested    bool // items may lack the list a nested loop iterates
+	MixedNested      bool // nested lists may mix scalar and map items
 	VarRefs          bool // top-level variable values may mention other variables' placeholders
 	inItem           bool
 	Else             bool // generate {{else}} branches
@@ -235,7 +236,7 @@ func (g *TGen) Data() *TData {
 						if g.R.Chance(0.6) || !g.MissingNested { // (a nested loop over a list the item lacks: listed finding)
 							sub := []any{}
 							for j := g.R.Intn(3); j > 0; j-- {
-								if g.R.Bool() && g.MissingNested { // (mixed scalar/map items in a nested list: only in wild runs)
+								if g.R.Bool() && g.MixedNested { // (mixed scalar/map items in a nested list: only in wild runs)
 									sub = append(sub, g.scalar())
 								} else {
 									sub = append(sub, map[string]any{"f1": g.scalar(), "label": g.scalar(), "ok": g.R.Bool()})
